@@ -16,7 +16,7 @@ func init() {
 		ID: "C12", Run: runC12, QuickRuns: 200000, ThoroughRuns: 12000000,
 		Rule:       "Each run: 1..6 exchanges between a writer peer (tape-chosen among the in-place, append and stream message-begin writers; method names empty..long with arbitrary bytes, any type 0..65535, any seq id) and a reader peer (buffer reader and stream reader) joined by the fault transport: per-exchange fragmentation, truncation at any cut point, corruption of the first word (version marker). Oracle: reference envelope codec on the delivered bytes; by-product: MarshalFastMsg/UnmarshalFastMsg round trip incl. the EXCEPTION branch.",
 		Components: realComponents,
-		Probes:     []string{"env.ok", "env.truncated", "env.bad_version", "exception_branch", "name_longer_than_buffer", "retry_after_failed_write", "name_of_a_megabyte"},
+		Probes:     []string{"env.ok", "env.truncated", "env.bad_version", "exception_branch", "name_longer_than_buffer", "retry_after_failed_write", "name_of_a_megabyte", "second_header_on_same_reader", "exception_fields_swapped", "framed_prefix"},
 	})
 }
 
@@ -214,23 +214,38 @@ func runC12(c *sim.Ctx) {
 		}
 		// reader peer 2: stream reader over Source
 		{
-			scfg := sim.RandomSourceCfg(cfg, len(d))
-			src := sim.NewSource(c, "r", d, scfg)
-			src.BeginCall(len(d))
+			// the header under test may be the second one on this reader instance: every header
+			// is judged on its own, whatever the instance has seen before
+			var lead []byte
+			if st.Chance(1, 3) {
+				lead = ref.EncodeMessageBegin([]byte("warmup"), 1, 1)
+				c.Count("probe.second_header_on_same_reader")
+			}
+			stream := append(append([]byte(nil), lead...), d...)
+			scfg := sim.RandomSourceCfg(cfg, len(stream))
+			src := sim.NewSource(c, "r", stream, scfg)
+			src.BeginCall(len(stream))
 			dr := bufiox.NewDefaultReader(src)
 			br := thrift.NewBufferReader(dr)
 			var gn string
 			var gt, gs int32
 			var err error
 			rs := "ReadMessageBegin/BufferReader"
+			if lead != nil {
+				c.GuardNoOOM(rs, func() { gn, gt, gs, err = br.ReadMessageBegin() })
+				if err != nil || gn != "warmup" {
+					c.Fail("ENVELOPE_REJECTED", rs, sim.F{"lead": true}, "the first header on the connection was not read back: %v", err)
+				}
+			}
+			before := int(br.Readn())
 			c.GuardNoOOM(rs, func() { gn, gt, gs, err = br.ReadMessageBegin() })
-			consumed := int(br.Readn())
+			consumed := int(br.Readn()) - before
 			judgeEnvelope(c, rs, env, gn, gt, gs, consumed, err)
 			br.Recycle()
 			// the name must stay the same after the reader's buffer is released, compacted and
 			// reused by the next message or by another user of the pool
 			more := sim.KeyedBytes(uint64(c.Index)+99, 0, 64)
-			_, _ = dr.Next(len(d) - consumed)
+			_, _ = dr.Next(len(stream) - before - consumed)
 			dr.Release(nil)
 			co := mcache.Malloc(4096)
 			for i := range co {
@@ -275,7 +290,60 @@ func judgeEnvelope(c *sim.Ctx, site string, env ref.Envelope, name string, typ, 
 }
 
 // fastMsgByProduct: MarshalFastMsg / UnmarshalFastMsg round trip incl. the EXCEPTION branch.
+// fastMsgHostile: buffers a peer could send that UnmarshalFastMsg must treat by the book:
+// a length-prefixed ("framed") message has no strict-version marker in its first word, and
+// an EXCEPTION struct may carry its fields in any order, with unknown fields in between.
+func fastMsgHostile(c *sim.Ctx, st *sim.Stream) {
+	name := ref.GenScalar(st, ref.TString, &ref.GenOpts{}).Bin
+	if len(name) == 0 {
+		name = []byte("m")
+	}
+	seq := int32(st.Choose(1 << 20))
+	text := ref.GenScalar(st, ref.TString, &ref.GenOpts{}).Bin
+	exType := int32(ref.GenScalar(st, ref.TI32, &ref.GenOpts{}).Bits)
+	fields := []ref.Field{{ID: 1, V: ref.StringV(text)}, {ID: 2, V: ref.I32V(exType)}}
+	if st.Chance(1, 2) {
+		fields[0], fields[1] = fields[1], fields[0]
+		c.Count("probe.exception_fields_swapped")
+	}
+	if st.Chance(1, 3) {
+		extra := ref.Field{ID: int16(3 + st.Choose(20)), V: ref.GenScalar(st, []byte{ref.TI64, ref.TString, ref.TBool}[st.Choose(3)], &ref.GenOpts{})}
+		k := st.Choose(len(fields) + 1)
+		fields = append(fields[:k:k], append([]ref.Field{extra}, fields[k:]...)...)
+	}
+	msg := append(ref.EncodeMessageBegin(name, 3, seq), ref.Encode(&ref.Value{T: ref.TStruct, Fields: fields})...)
+	dummy := thrift.NewApplicationException(0, "")
+	var gm string
+	var gs int32
+	var err error
+	c.GuardNoOOM("UnmarshalFastMsg", func() { gm, gs, err = thrift.UnmarshalFastMsg(msg, dummy) })
+	var ae *thrift.ApplicationException
+	if !errors.As(err, &ae) || ae == nil || gm != string(name) || gs != seq {
+		c.Fail("FASTMSG", "UnmarshalFastMsg", sim.F{"exception": true, "peer_encoded": true}, "an EXCEPTION message encoded by a peer (fields in its own order) came back as method %q seq %d err %v", gm, gs, err)
+	}
+	if ae.TypeID() != exType || ae.Msg() != string(text) {
+		c.Fail("FASTMSG", "UnmarshalFastMsg", sim.F{"exception": true, "peer_encoded": true}, "exception (%d, %d-byte text) came back as (%d, %d-byte text)", exType, len(text), ae.TypeID(), len(ae.Msg()))
+	}
+	// framed: u32 length in front of a complete message
+	framed := make([]byte, 4, 4+len(msg))
+	framed[0], framed[1], framed[2], framed[3] = byte(len(msg)>>24), byte(len(msg)>>16), byte(len(msg)>>8), byte(len(msg))
+	framed = append(framed, msg...)
+	if ref.ParseMessageBegin(framed).Kind == ref.EnvBadVersion {
+		c.Count("probe.framed_prefix")
+		c.GuardNoOOM("UnmarshalFastMsg", func() { _, _, err = thrift.UnmarshalFastMsg(framed, dummy) })
+		if id, ok := protoTypeID(err); err == nil || !ok || id != 4 {
+			c.Fail("ENVELOPE_VERSION", "UnmarshalFastMsg", sim.F{"accepted": err == nil, "framed": true}, "a length-prefixed message (first word %d, no strict-version marker) was not rejected as bad-version: %v", len(msg), err)
+		}
+		var l int
+		c.GuardNoOOM("ReadMessageBegin/Binary", func() { _, _, _, l, err = thrift.Binary.ReadMessageBegin(framed) })
+		if id, ok := protoTypeID(err); err == nil || !ok || id != 4 {
+			c.Fail("ENVELOPE_VERSION", "ReadMessageBegin/Binary", sim.F{"accepted": err == nil, "framed": true}, "a length-prefixed header was not rejected as bad-version: %v (consumed %d)", err, l)
+		}
+	}
+}
+
 func fastMsgByProduct(c *sim.Ctx, st *sim.Stream) {
+	fastMsgHostile(c, st)
 	method := string(ref.GenScalar(st, ref.TString, &ref.GenOpts{}).Bin)
 	seq := int32(ref.GenScalar(st, ref.TI32, &ref.GenOpts{}).Bits)
 	msgText := string(ref.GenScalar(st, ref.TString, &ref.GenOpts{}).Bin)
